@@ -71,6 +71,25 @@ def run(c, facts, tier):
         if not (isinstance(io, dict) and io.get("kind") == "mcall" and io.get("method") == "printer_map" and {toplevel.ctor_of(io)} == used):
             okm = False
     c.ob("C10.choice", comp.key, "the destination table is the selected manager's", okm, "io_map: manager.printer_map(): %s" % okm)
+    # on the resolved program: the manager methods compile() calls are dispatched on the selected manager itself (a `dyn
+    # SchemeManager` virtual call, or one of the two manager types) — not on an impl for a wrapper type (Box<M>, &mut M)
+    # whose provided methods would answer instead of the manager's own
+    from .. import mir as _mir
+
+    m_ = _mir.load(True)
+    disp, ncalls = [], 0
+    for pth, bd in m_.bodies.items():
+        own = _mir.e1_key(pth, facts)
+        if own is None or own not in facts.fns or tuple(facts.fns[own].module) != tuple(comp.module) or facts.fns[own].test:
+            continue  # compile() and the helpers of its module
+        for cl in bd["calls"]:
+            if cl["callee"].split("::")[-2:-1] == ["SchemeManager"]:
+                ncalls += 1
+                g0 = cl["generics"].lstrip("[")
+                okd = g0.startswith("dyn ") or any(g0.startswith(("scheme::manager::%s" % M_, M_)) for M_ in codegen.MANAGERS) or g0.startswith("M/#") or g0.startswith("impl ")
+                if not okd:
+                    disp.append("%s on %s" % (cl["callee"].split("::")[-1], g0[:60]))
+    c.ob("C10.choice", comp.key, "manager methods are dispatched on the selected manager", ncalls >= 1 and not disp, "%d SchemeManager calls in compile(); dispatched on a wrapper type: %s" % (ncalls, disp or "none"), nontrivial=False)
     # C10.key — Target derives, keys
     tgt = facts.enum("Target")
     der = facts.derives(tgt)
